@@ -98,6 +98,27 @@ Definition expand_wire (body : bytes) (ps : list piece) : bytes :=
                         | PBody off len => firstn (N.to_nat len) (skipn (N.to_nat off) body)
                         end) ps).
 
+(* the transformers the harness installs *)
+Inductive tf_spec := TfNone | TfPrefix (p : bytes) | TfFail.
+Definition tf_of (t : tf_spec) : option transformer :=
+  match t with
+  | TfNone => None
+  | TfPrefix p => Some (fun d => Some (p ++ d))
+  | TfFail => Some (fun _ => None)
+  end.
+
+(* a Read loop: n calls with the buffer sizes of the pattern, cycled *)
+Inductive op_spec := SBytes | SToBytes | SRead (pat : list N) (n : N) | SUnmarshal.
+
+Definition op_out_eqb (a b : op_out) : bool :=
+  match a, b with
+  | OutBytes x, OutBytes y => opt_eqb bytes_eqb x y
+  | OutToBytes x ok, OutToBytes y ok' => bytes_eqb x y && Bool.eqb ok ok'
+  | OutRead d e, OutRead d' e' => bytes_eqb d d' && opt_eqb bend_eqb e e'
+  | OutUnmarshal x, OutUnmarshal y => opt_eqb bytes_eqb x y
+  | _, _ => false
+  end.
+
 Inductive c02_case :=
 | H1Case (meth : bytes) (body : bspec) (wire : list piece)
          (has_body : bool)          (* the response carries the body (not HEAD / 204 / 304) *)
@@ -115,7 +136,16 @@ Inductive c02_case :=
 | H3Case (is_head : bool) (body : bspec) (heads : list (bytes * list mfield))
          (parts : list (N * N)) (trailers : option (list mfield))
          (has_body : bool) (m : mode) (pat : list N)
-         (o_noresp : bool) (o_code : Z) (o_header : hmap) (o_cl : Z) (o_trailer : hmap) (o : obs_api).
+         (o_noresp : bool) (o_code : Z) (o_header : hmap) (o_cl : Z) (o_trailer : hmap) (o : obs_api)
+(* Response API cell (any protocol): status, the body the transport delivers, the request /
+   client configuration, the caller's operations; observed: call error, output writer
+   contents, download callback values, bytes handed to the unmarshaller by SetSuccessResult,
+   the result of every operation *)
+| ApiCase (code : Z) (body : bspec) (has_body : bool)
+          (disable save : bool) (cap : option N) (cb result : bool) (tf : tf_spec)
+          (ops : list op_spec)
+          (o_err : bool) (o_out : bytes) (o_cbs : list N) (o_unm : option bytes)
+          (o_outs : list op_out).
 
 Definition slice (body : bytes) (off len : N) : bytes :=
   firstn (N.to_nat len) (skipn (N.to_nat off) body).
@@ -161,4 +191,17 @@ Definition c02_check (c : c02_case) : bool :=
       let hs := map (fun x => {| h3_status := fst x; h3_flds := snd x |}) heads in
       let ps := map (fun x => slice bd (fst x) (snd x)) parts in
       mux_matches ref (h3_exchange is_head hs ps trailers m sizes) o_noresp o_code o_header o_cl o_trailer o
+  | ApiCase code body has_body disable save cap cb result tf ops o_err o_out o_cbs o_unm o_outs =>
+      let bd := if has_body then expand_body body else [] in
+      let c := {| c_disable_auto := disable; c_save := save; c_cap := option_map N.to_nat cap;
+                  c_callback := cb; c_result := result; c_tf := tf_of tf |} in
+      let d := finish c code {| rd_rem := bd; rd_end := BEof |} in
+      let ops' := map (fun o => match o with
+                                | SBytes => OpBytes | SToBytes => OpToBytes | SUnmarshal => OpUnmarshal
+                                | SRead pat n => OpRead (cycle_sizes (N.to_nat n) pat)
+                                end) ops in
+      Bool.eqb (s_err (a_state d)) o_err && bytes_eqb (a_out d) o_out &&
+      list_eqb N.eqb (map N.of_nat (a_callbacks d)) o_cbs &&
+      opt_eqb bytes_eqb (a_unmarshal d) o_unm &&
+      list_eqb op_out_eqb (run_ops (tf_of tf) ops' (a_state d)) o_outs
   end.
